@@ -10,7 +10,7 @@ TB_COMMON = [
 PROPS = {}
 
 PROPS["C17"] = {
-    "modules": ["Platypus.Properties.C17", "Platypus.Properties.C17Chain", "Platypus.Properties.C17Tree", "Platypus.Properties.C17Sorted", "Platypus.Properties.C17Runtime", "Platypus.Properties.FrontEnd"],
+    "modules": ["Platypus.Properties.C17", "Platypus.Properties.C17Chain", "Platypus.Properties.C17Tree", "Platypus.Properties.C17Sorted", "Platypus.Properties.C17Runtime", "Platypus.Properties.C17Source", "Platypus.Properties.FrontEnd"],
     "theorems": None,
     "rule": "lookup: every text over {a, newline, e-acute} up to length 6 (quick) / 8 (thorough) x every offset -2..len+2, plus random byte strings (invalid UTF-8, CR, NUL) x boundary and random offsets; "
             "tree positions: generated statement trees (every expression and statement form) x 4 layout families: on the real parser's tree every stored position must carry the line/column of its offset and the source must spell that node's token there "
@@ -197,7 +197,7 @@ _mk("C07",
     extra_tb=["strconv.ParseFloat (oracle)"], exhaustive=True)
 
 _mk("C01",
-    ["Platypus.Properties.C01", "Platypus.Properties.C01Bridge", "Platypus.Properties.C01Full", "Platypus.Properties.BuiltinFacts", "Platypus.Properties.C17Runtime"],
+    ["Platypus.Properties.C01", "Platypus.Properties.C01Bridge", "Platypus.Properties.C01Full", "Platypus.Properties.BuiltinFacts", "Platypus.Properties.C17Runtime", "Platypus.Properties.C17Source"],
     rule="random programs over the whole grammar from the typed generator with 1-in-5 ill-typed operands, extreme integers (+-2^53+-1, min/max int64), negative/reversed/out-of-range/overflowing slice bounds and steps, "
          "object-less index expressions, attribute expressions, every builtin with the argument shapes its checker accepts, exit(), on random points (tags/fields of every type, nil, colliding names); "
          "each program is loaded and run by the real engine in a worker process (panic, fatal error, timeout and OOM are classified) and by the model; "
